@@ -23,6 +23,9 @@ type Bucket struct {
 	Sym, TF, Attr string
 	Cols          []Col
 	Variable      bool
+	// Overrides: record id -> column name -> value the bucket must hold, when it
+	// is not the canonical derived value (writes sent with another numeric type)
+	Overrides map[int64]map[string]interface{}
 }
 
 func (b *Bucket) Key() string { return b.Sym + "/" + b.TF + "/" + b.Attr }
